@@ -1,3 +1,4 @@
+import re
 """C14 - AMF0 decoding uses bounded stack and memory (DESIGN.md section 5, C14)."""
 from .common import *
 from . import loops
@@ -44,6 +45,46 @@ def sccs(nodes, edges):
     return out
 
 
+def captured_value(ctx, parent, closure, sv):
+    """(state, value) of the captured variable that `sv` (a value read inside the closure through its environment) stands for,
+    evaluated in the creating function at the point where the closure is built; None if sv is not such a read"""
+    x = sv
+    idx = None
+    # *(*env).i   or   (*env).i   or   env.i
+    for _ in range(3):
+        if isinstance(x, tuple) and x[0] == "ld":
+            root, proj = x[1]
+            if proj and proj[0][0] == "f" and (root[0] == "L" and root[1] == 1 or (root[0] == "P" and is_param_load(root[1], 1))):
+                idx = proj[0][1]
+                break
+            if root[0] == "P" and not proj:
+                x = root[1]
+                continue
+        break
+    if idx is None:
+        return None
+    it = ctx.interp(parent.key)
+    for bi in parent.rpo:
+        for si, st in enumerate(parent.blocks[bi]["stmts"]):
+            rv = st["rv"]
+            if rv["k"] == "agg" and rv.get("ak") == "closure" and rv.get("closure") == closure.key:
+                S = it.entry_states.get(bi)
+                if S is None:
+                    continue
+                S = S.copy()
+                for j, s2 in enumerate(parent.blocks[bi]["stmts"][:si]):
+                    it.cur = (bi, j)
+                    it.transfer_stmt(S, s2)
+                it.cur = (bi, si)
+                if idx >= len(rv["ops"]):
+                    return None
+                v = it.eval_op(S, rv["ops"][idx])
+                if isinstance(v, tuple) and v[0] == "ref":
+                    v = S.read(v[1])
+                return S, v
+    return None
+
+
 def run(env, rep):
     prog, ctx = env.prog, env.ctx
     rep.explanation = (
@@ -51,7 +92,7 @@ def run(env, rep):
         ">= 1 around the cycle (no zero-weight cycle) and whose value at every intra-cycle call site is bounded by a constant "
         "(interval under caller-established entry states), so the recursion depth is bounded; R2: no allocation in the decoder "
         "is sized by a peer-declared count: sizes are constants or a <= 16-bit length whose bytes must follow (read_exact into the "
-        "same buffer); R3: every decoder loop consumes input per iteration (idiom L2) or is bounded by held data.  "
+        "same buffer); R3: every decoder loop consumes input per iteration (idiom L2) or is bounded by held data; R4: the fixed-size arrays declared in the frames of the recursive functions, times the depth limit, stay under a quarter of a 2 MiB stack.  "
         "Not decided: the stack size in bytes (a code-generation fact).")
     rep.assumptions = ["stack frames of the five decoder functions are of ordinary size (depth bound 64 x 5 frames)"]
     de = body_by_pretty(prog, "deserialization::deserialize")
@@ -71,10 +112,14 @@ def run(env, rep):
         comp = sorted(comp)
         names = [prog.bodies[k].pretty.split("::")[-1] for k in comp]
         ckey = "scc:" + "+".join(names)
-        # candidate depth parameter per function: an integer parameter
+        # candidate depth parameter per function: an integer parameter.  A closure has none of its own: it runs at the depth of
+        # the function that creates it, and what it passes on is evaluated where it was captured
         cand = {}
         for k in comp:
             b = prog.bodies[k]
+            if b.kind == "closure" and b.parent in comp:
+                cand[k] = ["parent"]
+                continue
             cand[k] = [i for i in range(1, b.arg_count + 1) if b.locals[i]["t"].get("k") in ("uint", "int")]
         if any(not cand[k] for k in comp):
             missing = [prog.bodies[k].pretty for k in comp if not cand[k]]
@@ -98,9 +143,26 @@ def run(env, rep):
                 if S is None:
                     continue
                 rep.call_sites += 1
+                if dpar[cp] == "parent":
+                    continue        # creating / invoking a closure of this cycle: same depth, no own parameter
                 a = args[dpar[cp] - 1]
                 base, off = S.norm(a)
-                mine = ("ld", (it.L(dpar[k]), ()), "entry")
+                if dpar[k] == "parent":
+                    # inside a closure: a captured value is what it was where the closure was built
+                    pk = b.parent
+                    tr = captured_value(ctx, prog.bodies[pk], b, base)
+                    if tr is None:
+                        problems.append("%s passes %s as depth to %s (not a captured depth)" % (b.pretty.split("::")[-1], stable(a), prog.bodies[cp].pretty.split("::")[-1]))
+                        continue
+                    pS, pv = tr
+                    pbase, poff = pS.norm(pv)
+                    base, off = pbase, off + poff
+                    mine = ("ld", (ctx.interp(pk).L(dpar[pk]), ()), "entry") if dpar.get(pk) not in (None, "parent") else None
+                    S = pS
+                    a = pv
+                    weights.setdefault((pk, k), 0)
+                else:
+                    mine = ("ld", (it.L(dpar[k]), ()), "entry")
                 if base != mine:
                     problems.append("%s passes %s as depth to %s (not its own depth plus a constant)" % (b.pretty.split("::")[-1], stable(a), prog.bodies[cp].pretty.split("::")[-1]))
                     continue
@@ -125,6 +187,43 @@ def run(env, rep):
             problems.append("the calls %s form a cycle that does not increase the depth: that kind of nesting is not limited" % cyc)
         rep.check("C14.R1", ckey, not problems, "cycle {%s}: depth grows around every cycle and is at most %s at every recursive call" % (", ".join(names), worst),
                   "recursion {%s} is not depth-bounded: %s" % (", ".join(names), "; ".join(problems)), prog.bodies[comp[0]].span)
+    # ---- R4 fixed-size arrays in the frames of the recursive functions (a necessary condition of the stack clause that *is*
+    # visible in the program: the frames' other contents are a code-generation fact, the arrays are declared sizes)
+    STACK_BUDGET = 512 * 1024       # a quarter of an ordinary 2 MiB thread stack
+    for comp in comps:
+        per_level = 0
+        big = []
+        for k in sorted(comp):
+            b = prog.bodies[k]
+            fn_bytes = 0
+            for li, l in enumerate(b.locals):
+                t = l["t"]
+                if t.get("k") == "array" and isinstance(t.get("len"), int):
+                    el = t.get("elem") or t.get("of") or {}
+                    esz = (el.get("bits", 64) // 8) if isinstance(el, dict) and el.get("k") in ("uint", "int") else 16
+                    m_ = re.match(r"^\[(u8|i8|u16|i16|u32|i32|u64|i64|f32|f64|bool|char); ", t.get("s", ""))
+                    if m_:
+                        esz = {"u8": 1, "i8": 1, "bool": 1, "u16": 2, "i16": 2, "u32": 4, "i32": 4, "f32": 4, "char": 4, "u64": 8, "i64": 8, "f64": 8}[m_.group(1)]
+                    fn_bytes = max(fn_bytes, t["len"] * esz) if False else fn_bytes + t["len"] * esz
+            # MIR keeps one local per temporary copy of an array; count the largest array once per distinct size
+            sizes = {}
+            for l in b.locals:
+                t = l["t"]
+                if t.get("k") == "array" and isinstance(t.get("len"), int):
+                    sizes[t.get("s")] = t["len"]
+            fn_bytes = 0
+            for sname, ln in sizes.items():
+                m_ = re.match(r"^\[(u8|i8|u16|i16|u32|i32|u64|i64|f32|f64|bool|char); ", sname or "")
+                esz = {"u8": 1, "i8": 1, "bool": 1, "u16": 2, "i16": 2, "u32": 4, "i32": 4, "f32": 4, "char": 4, "u64": 8, "i64": 8, "f64": 8}.get(m_.group(1), 16) if m_ else 16
+                fn_bytes += ln * esz
+            per_level += fn_bytes
+            if fn_bytes > 4096:
+                big.append("%s holds %d bytes of fixed-size arrays" % (b.pretty.split("::")[-1], fn_bytes))
+        names = [prog.bodies[k].pretty.split("::")[-1] for k in sorted(comp)]
+        rep.check("C14.R4", "scc:" + "+".join(names) + "|frame-arrays", per_level * MAX_DEPTH <= STACK_BUDGET,
+                  "fixed-size arrays in the frames of the recursive functions: %d bytes per nesting level, %d at the depth limit %d" % (per_level, per_level * MAX_DEPTH, MAX_DEPTH),
+                  "the recursive decoder functions keep %d bytes of fixed-size arrays on the stack per nesting level (%s): at the accepted depth of %d that is %d bytes, more than a quarter of an ordinary 2 MiB thread stack" % (
+                      per_level, "; ".join(big) or "sum over the cycle", MAX_DEPTH, per_level * MAX_DEPTH), prog.bodies[sorted(comp)[0]].span)
     # ---- R2 allocations
     n = 0
     for b in bodies:
